@@ -667,7 +667,10 @@ func (rt *RoutingTable) Clean() {
 			// Count entries in prefix.
 			if currentPrefix != rte.RoutingPrefix {
 				currentPrefix = rte.RoutingPrefix
-				rp, ok := rt.getRoutablePrefixConfig(rte.RoutingPrefix.Addr())
+				// Look the limit up by a destination of the bucket: the first
+				// address of the routing prefix may belong to another, more
+				// specific routable prefix (eg. the router's own prefix).
+				rp, ok := rt.getRoutablePrefixConfig(rte.DstIP)
 				if ok {
 					currentPrefixMax = rp.EntriesPerPrefix
 				} else {
@@ -695,7 +698,11 @@ func (rt *RoutingTable) sortForCleaning() {
 			switch {
 			case a.RoutingPrefix != b.RoutingPrefix:
 				// Group gossip entries by routing prefix.
-				return a.RoutingPrefix.Addr().Compare(b.RoutingPrefix.Addr())
+				// Prefixes of different length may start at the same address.
+				if cmp := a.RoutingPrefix.Addr().Compare(b.RoutingPrefix.Addr()); cmp != 0 {
+					return cmp
+				}
+				return a.RoutingPrefix.Bits() - b.RoutingPrefix.Bits()
 
 			case a.Path.TotalHops != b.Path.TotalHops:
 				// Sort by hop distance to dst.
